@@ -405,6 +405,9 @@ def main(tier, replay):
                     p = dict(base["parameters"])
                     p["client_id"] = bad if bad is not None else "?"
                     work.append((k, "client-id", (str(bad),), dict(base, parameters=p), "other" if bad is None else "keep"))
+                # other spellings of the id this client was given: an id is a string, not a number
+                for sp in ("upper", "lead0", "plus", "trail-space", "lead-space", "0x"):
+                    work.append((k, "client-id-spelling", (sp,), base, "spell:" + sp))
         # negative controls (must succeed)
         neg = []
         for k, step in enumerate(STEPS):
@@ -491,6 +494,13 @@ def one_fault(ctx, srv, k, req, kind, path, id_mode="own", lock=None, replay=Fal
         if isinstance(p, dict) and "client_id" in p:
             if id_mode == "own":
                 p["client_id"] = cid
+            elif id_mode.startswith("spell:"):
+                sp = id_mode[6:]
+                v = {"upper": cid.upper(), "lead0": "0" + cid, "plus": "+" + cid, "trail-space": cid + " ", "lead-space": " " + cid, "0x": "0x" + cid}[sp]
+                if v == cid:
+                    c.close()
+                    return
+                p["client_id"] = v
             elif id_mode == "other":
                 # a valid id of another client that is at a different step
                 c2 = Conn(srv.path)
